@@ -547,6 +547,18 @@ def candidates(t: Tree, results: list[str], R=None) -> list[str]:
                         if os.path.isdir(f2) and os.path.islink(f2):
                             for nm2 in sorted(os.listdir(f2))[:3]:
                                 add(e + '/' + nm + '/' + nm2)
+                    # ... and everything below the link's target, to any depth (bounded; links below are not followed again): a later `**`
+                    # of the pattern may stand for real directories there (seeded change C04i)
+                    k = 0
+                    for dp, dn, fn in os.walk(full, followlinks=False):
+                        rel = os.path.relpath(dp, full)
+                        for nm in sorted(dn) + sorted(fn):
+                            if k >= 40:
+                                break
+                            add(e + '/' + (nm if rel == '.' else rel + '/' + nm))
+                            k += 1
+                        if k >= 40:
+                            break
                 except OSError:
                     pass
     for r in results:
